@@ -11,7 +11,7 @@ from vf import alg, astrules
 from vf import symops as SO
 from vf.alg import Poly, as_poly
 from vf.harness import Check, new_interp, N, L, DT, M, R, H_of, loc, AnalysisBroken, VERIF
-from vf.interp import UFun
+from vf.interp import UFun, AnalysisError
 from vf.tens import Tens
 
 PROP = "C19"
@@ -25,6 +25,7 @@ def run(tier="quick", only_key=None):
     ck.rule("no-pinned-precision", "no floating / complex width, dtype string or jax.config update in library code (outside viz); every dtype= keyword is bool or derived from an input's .dtype")
     ck.rule("fixture", "the precision rule matches its positive fixture")
     ck.rule("contour-shifted", "in every ETDRK coefficient every division is by a power of (r*rho_j + dt*lambda) - never by dt*lambda itself - and the only direct functions of dt*lambda are exponentials: finite at lambda = 0 and for stiff lambda")
+    ck.rule("contour-off-axis", "for an even number of contour points (the default is 16) no point lies on the real axis: r*rho_j + dt*lambda is never 0 for a real symbol, whatever dt*lambda is (a point at +-1 makes every coefficient of the mode with dt*lambda = -+r a 0/0)")
     ck.rule("accumulator-dtype", "the contour-sum accumulators are zeros_like of a value derived from the linear operator (inherit its precision and complex type)")
     fx = ast.parse(open(os.path.join(VERIF, "selftest", "fixtures", "banned_constructs.py")).read())
     hits = {c for _, c, _ in astrules.precision_pins(fx)}
@@ -55,6 +56,21 @@ def run(tier="quick", only_key=None):
     et = it.module("exponax.etdrk").env
     lam = Poly.atom(LAM)
     linop = Tens((1, N, H_of(0)), [lam])
+    from props.c02 import _angle_over_pi
+
+    rou = et.get("roots_of_unity")
+    for M_ in (2, 4, 6, 8, 12, 16):
+        key = f"exponax.etdrk._utils.roots_of_unity#off-axis#M={M_}"
+        try:
+            angles = [_angle_over_pi(e) for e in it.call(rou, [M_]).data]
+        except (ValueError, AnalysisError) as ex:
+            ck.notes.append(f"contour points for M={M_} not readable as exp(i pi q): {str(ex)[:100]} (rule skipped for this M)")
+            continue
+        on_axis = [a for a in angles if a.denominator == 1]
+        if on_axis:
+            ck.fail("contour-off-axis", key, loc(rou), f"with M={M_} the contour contains the real point(s) exp(i pi {[str(a) for a in on_axis]}): the coefficients of a mode with dt*lambda = -+r are 0/0")
+        else:
+            ck.ok("contour-off-axis", key)
     n_coef = 0
     for n in range(1, 5):
         cls = et.get(f"ETDRK{n}")
